@@ -1,10 +1,10 @@
 SPECIFICATION Spec
 CONSTANTS
   Fuel = 24
-  TickLimit = 2
-  K = 4
-  Alphabet <- AlphaErrors
+  TickLimit = 3
+  K = 7
+  Alphabet <- AlphaLoops2
   ItemAlphabet <- NoItems
-  Mode = "c10"
+  Mode = "c02"
 INVARIANT Emit
 CHECK_DEADLOCK FALSE
